@@ -63,6 +63,8 @@ import (
 //@ func (*List).PushBack
 //@   requires inv:   listInv(l)
 //@   ensures  conv:  old(listConv(l)) ==> listConv(l)
+//@   ensures  otherinv:  forall k *List[T] :: k != nil && k != l && old(listInv(k)) ==> listInv(k)
+//@   ensures  otherconv: forall k *List[T] :: k != nil && k != l && old(listConv(k)) ==> listConv(k)
 //@   requires free:  n != nil && toplevel(n) && n.owner == nil
 //@   modifies Node.next, Node.prev, Node.owner, Node.idx, List.elems
 //@   ghost l.elems := old(l.elems) ++ [n]
@@ -78,9 +80,11 @@ import (
 //@ func (*List).PopBack
 //@   requires inv:   listInv(l)
 //@   ensures  conv:  old(listConv(l)) ==> listConv(l)
+//@   ensures  otherinv:  forall k *List[T] :: k != nil && k != l && old(listInv(k)) ==> listInv(k)
+//@   ensures  otherconv: forall k *List[T] :: k != nil && k != l && old(listConv(k)) ==> listConv(k)
 //@   modifies Node.next, Node.prev, Node.owner, List.elems
 //@   ghost l.elems := ite(len(old(l.elems)) > 0, old(l.elems)[:len(old(l.elems))-1], old(l.elems))
-//@   ghost result.owner := nil
+//@   ghost result.owner := ite(result != nil, nil, result.owner)
 //@   ensures  r:     result == ite(len(old(l.elems)) == 0, nil, old(l.elems[len(l.elems)-1]))
 //@   ensures  inv:   listInv(l)
 //@   ensures  elems: (len(old(l.elems)) > 0 ==> l.elems == old(l.elems)[:len(old(l.elems))-1]) && (len(old(l.elems)) == 0 ==> l.elems == old(l.elems))
@@ -93,10 +97,12 @@ import (
 //@ func (*List).PopFront
 //@   requires inv:   listInv(l)
 //@   ensures  conv:  old(listConv(l)) ==> listConv(l)
+//@   ensures  otherinv:  forall k *List[T] :: k != nil && k != l && old(listInv(k)) ==> listInv(k)
+//@   ensures  otherconv: forall k *List[T] :: k != nil && k != l && old(listConv(k)) ==> listConv(k)
 //@   modifies Node.next, Node.prev, Node.owner, List.elems, List.base
 //@   ghost l.elems := ite(len(old(l.elems)) > 0, old(l.elems)[1:], old(l.elems))
 //@   ghost l.base  := ite(len(old(l.elems)) > 0, old(l.base) + 1, old(l.base))
-//@   ghost result.owner := nil
+//@   ghost result.owner := ite(result != nil, nil, result.owner)
 //@   ensures  r:     result == ite(len(old(l.elems)) == 0, nil, old(l.elems[0]))
 //@   ensures  inv:   listInv(l)
 //@   ensures  elems: (len(old(l.elems)) > 0 ==> l.elems == old(l.elems)[1:]) && (len(old(l.elems)) == 0 ==> l.elems == old(l.elems))
@@ -106,14 +112,34 @@ import (
 //@   ensures  ghosts: forall m *Node[T] :: m != result ==> m.owner == old(m.owner)
 //@   ensures  lists: forall k *List[T] :: k != l ==> k.elems == old(k.elems) && k.base == old(k.base)
 
+// SetLink pairs a version node with its all-store partner (ghost linkOf is the back pointer).
+//@ func (*Node).SetLink
+//@   requires nn:    n != nil && link != nil
+//@   modifies Node.link, Node.linkOf
+//@   ghost link.linkOf := n
+//@   ensures  r:     result == n && n.link == link && link.linkOf == n
+//@   ensures  links: forall m *Node[T] :: m != n ==> m.link == old(m.link)
+//@   ensures  backs: forall m *Node[T] :: m != link ==> m.linkOf == old(m.linkOf)
+//@   ensures  keeplists: forall k *List[T] :: k != nil && old(listInv(k)) ==> listInv(k)
+
+// SetV on a node that is in no list changes no list's contents.
+//@ func (*Node[model.File]).SetV
+//@   requires free:   n != nil && n.owner == nil && toplevel(n)
+//@   modifies model.File.*
+//@   ensures  r:      result == n && *n.v == val
+//@   ensures  nodes:  forall m *Node[model.File] :: m != n ==> m.v.Seq == old(m.v.Seq) && m.v.Key == old(m.v.Key) && m.v.TxId == old(m.v.TxId) && m.v.ContentId == old(m.v.ContentId)
+//@   ensures  values: forall g *model.File :: g != &n.v ==> g.Seq == old(g.Seq) && g.Key == old(g.Key) && g.TxId == old(g.TxId) && g.ContentId == old(g.ContentId)
+//@   ensures  keeptx: forall t *Transaction :: t != nil && old(txInv(t)) ==> txInv(t)
+
 // DeleteLink unlinks the partner node (n.link) from whatever list it is in, at any position.
 //@ pure func hasLink(n *Node[T]) bool = n != nil && n.link != nil
 //@ func (*Node).DeleteLink
 //@   requires linked: hasLink(n) ==> toplevel(n.link) && n.link.owner != nil && listInv(n.link.owner) && listConv(n.link.owner)
-//@   modifies Node.next, Node.prev, Node.link, Node.owner, Node.idx, List.elems
+//@   modifies Node.next, Node.prev, Node.link, Node.linkOf, Node.owner, Node.idx, List.elems
 //@   ghost old(n.link.owner).elems := ite(old(hasLink(n)), remove(old(n.link.owner.elems), old(n.link.idx - n.link.owner.base)), old(n.link.owner.elems))
 //@   ghost forall m *Node[T] :: m.idx := ite(old(hasLink(n)) && m.owner == old(n.link.owner) && m.idx > old(n.link.idx), m.idx - 1, m.idx)
-//@   ghost result.owner := nil
+//@   ghost result.owner := ite(result != nil, nil, result.owner)
+//@   ghost result.linkOf := ite(result != nil, nil, result.linkOf)
 //@   ensures  r:      result == ite(n == nil, nil, old(n.link))
 //@   ensures  inv:    old(hasLink(n)) ==> listInv(old(n.link.owner)) && listConv(old(n.link.owner))
 //@   ensures  len:    old(hasLink(n)) ==> len(old(n.link.owner).elems) == len(old(n.link.owner.elems)) - 1
@@ -123,9 +149,12 @@ import (
 //@   ensures  unlink: n != nil ==> n.link == nil
 //@   ensures  nodes:  forall m *Node[T] :: m != result && m != old(result.prev) && m != old(result.next) ==> m.next == old(m.next) && m.prev == old(m.prev)
 //@   ensures  links:  forall m *Node[T] :: m != n ==> m.link == old(m.link)
+//@   ensures  backs:  (result != nil ==> result.linkOf == nil) && forall m *Node[T] :: m != result ==> m.linkOf == old(m.linkOf)
 //@   ensures  owners: forall m *Node[T] :: m != result ==> m.owner == old(m.owner)
 //@   ensures  idxs:   forall m *Node[T] :: m.idx == ite(old(hasLink(n)) && old(m.owner) == old(n.link.owner) && old(m.idx) > old(n.link.idx), old(m.idx) - 1, old(m.idx))
 //@   ensures  lists:  forall k *List[T] :: !(old(hasLink(n)) && k == old(n.link.owner)) ==> k.elems == old(k.elems)
+//@   ensures  otherinv:  forall k *List[T] :: k != nil && !(old(hasLink(n)) && k == old(n.link.owner)) && old(listInv(k)) ==> listInv(k)
+//@   ensures  otherconv: forall k *List[T] :: k != nil && !(old(hasLink(n)) && k == old(n.link.owner)) && old(listConv(k)) ==> listConv(k)
 
 // ---------------------------------------------------------------------------
 // Per-key version list (file.go): the list plus, unless withoutSearch, an array
@@ -135,14 +164,17 @@ import (
 
 //@ pure func fileInv(f *file) bool =
 //@     f != nil && listInv(&f.l) && f.l.root.v.Seq == 0 && (f.withoutSearch ==> listConv(&f.l)) &&
-//@     (f.withoutSearch || (len(f.arr) == len(f.l.elems) &&
-//@         (backing(f.arr) == nil || backing(f.arr).owner == f) &&
-//@         (forall i int :: 0 <= i && i < len(f.arr) ==> f.arr[i] == f.l.elems[i])))
+//@     (!f.withoutSearch ==> len(f.arr) == len(f.l.elems)) &&
+//@     (!f.withoutSearch ==> backing(f.arr) == nil || backing(f.arr).owner == f) &&
+//@     (!f.withoutSearch ==> forall i int :: 0 <= i && i < len(f.arr) ==> f.arr[i] == f.l.elems[i])
 
 //@ pure func sortedF(f *file) bool =
 //@     forall i, j int :: 0 <= i && i < j && j < len(f.l.elems) ==> f.l.elems[i].v.Seq < f.l.elems[j].v.Seq
 //@ pure func positiveF(f *file) bool =
 //@     forall i int :: 0 <= i && i < len(f.l.elems) ==> f.l.elems[i].v.Seq > 0
+
+//@ pure func keyedF(f *file) bool = forall i int :: 0 <= i && i < len(f.l.elems) ==> f.l.elems[i].v.Key == f.gkey
+//@ pure func fileOk(g *file) bool = fileInv(g) && sortedF(g) && positiveF(g) && keyedF(g)
 
 //@ func (*file).Latest
 //@   requires inv:  f != nil ==> fileInv(f)
@@ -159,6 +191,7 @@ import (
 
 //@ func (*file).PushBack
 //@   requires inv:    f != nil ==> fileInv(f) && sortedF(f)
+//@   ensures  otherfiles: forall g *file :: g != nil && g != f && old(fileOk(g)) ==> fileOk(g)
 //@   requires free:   n != nil ==> toplevel(n) && n.owner == nil
 //@   requires order:  f != nil && n != nil && len(f.l.elems) > 0 ==> f.l.elems[len(f.l.elems)-1].v.Seq < n.v.Seq
 //@   modifies Node[model.File].next, Node[model.File].prev, Node[model.File].owner, Node[model.File].idx, List[model.File].elems,
@@ -185,6 +218,7 @@ import (
 //@ ghost field (file).gkey string
 //@ ghost field (Node).linkOf *Node[T]
 //@ ghost field (Transaction).gid string
+//@ ghost field (mapref).mowner *Transaction
 
 //@ pure func zeroFile(f *file) bool =
 //@     f.l.root.next == nil && f.l.root.prev == nil && f.l.root.link == nil && f.l.root.v.Seq == 0 && len(f.l.elems) == 0 &&
@@ -199,11 +233,30 @@ import (
 //@ func (*Pool[file]).Release
 //@   trusted
 //@   requires nn:       p != nil
-//@   requires unlinked: forall i int :: 0 <= i && i < len(els) ==> els[i] != nil && els[i].gtx == nil && len(els[i].l.elems) == 0
+//@   requires unlinked: forall i int :: 0 <= i && i < len(els) ==> els[i] != nil && len(els[i].l.elems) == 0
 //@   modifies file.arr, file.withoutSearch, Node[model.File].next, Node[model.File].prev
-//@   ensures  files:    forall g *file :: g.gtx != nil ==> g.arr == old(g.arr) && g.withoutSearch == old(g.withoutSearch) &&
+//@   ensures  files:    forall g *file :: (forall i int :: 0 <= i && i < len(els) ==> g != els[i]) ==> g.arr == old(g.arr) && g.withoutSearch == old(g.withoutSearch) &&
 //@                         g.l.root.next == old(g.l.root.next) && g.l.root.prev == old(g.l.root.prev)
 //@   ensures  nodes:    forall m *Node[model.File] :: toplevel(m) ==> m.next == old(m.next) && m.prev == old(m.prev)
+
+//@ func (*Pool[Transaction]).Acquire
+//@   trusted
+//@   requires nn: p != nil
+//@   ensures  r:  result != nil && toplevel(result) && !result.WithoutSearch && forall k string :: !has(result.store, k)
+
+// The transaction pool is created with clearF = Transaction.Clear: releasing a store clears it.
+//@ func (*Pool[Transaction]).Release
+//@   trusted
+//@   requires nn:     p != nil
+//@   requires one:    len(els) == 1 && els[0] != nil && txInv(els[0])
+//@   requires empty:  forall k string :: has(els[0].store, k) ==> len(els[0].store[k].l.elems) == 0
+//@   modifies file.arr, file.withoutSearch, file.gtx, Node[model.File].next, Node[model.File].prev, map[string]*file, mem[*file]
+//@   ghost forall g *file :: g.gtx := ite(g.gtx == els[0], nil, g.gtx)
+//@   ensures  cleared: forall k string :: !has(els[0].store, k)
+//@   ensures  files:   forall g *file :: g.gtx != nil ==> g.gtx == old(g.gtx) && g.arr == old(g.arr) && g.withoutSearch == old(g.withoutSearch) &&
+//@                        g.l.root.next == old(g.l.root.next) && g.l.root.prev == old(g.l.root.prev)
+//@   ensures  nodes:   forall m *Node[model.File] :: toplevel(m) ==> m.next == old(m.next) && m.prev == old(m.prev)
+//@   ensures  maps:    forall mp map[string]*file :: mp != els[0].store && mp != nil ==> forall k string :: has(mp, k) == old(has(mp, k)) && mp[k] == old(mp[k])
 
 //@ pure func zeroNode(n *Node[model.File]) bool =
 //@     n.next == nil && n.prev == nil && n.link == nil && n.owner == nil && n.linkOf == nil &&
@@ -232,13 +285,12 @@ import (
 // ---------------------------------------------------------------------------
 // Per-transaction version store (transaction.go): key -> version list.
 
-//@ pure func keyedF(f *file) bool = forall i int :: 0 <= i && i < len(f.l.elems) ==> f.l.elems[i].v.Key == f.gkey
 //@ pure func txFileOk(tx *Transaction, k string) bool =
 //@     tx.store[k] != nil && toplevel(tx.store[k]) && tx.store[k].gtx == tx && tx.store[k].gkey == k &&
 //@     fileInv(tx.store[k]) && sortedF(tx.store[k]) && positiveF(tx.store[k]) && keyedF(tx.store[k]) &&
 //@     tx.store[k].withoutSearch == tx.WithoutSearch
-//@ pure func txInv(tx *Transaction) bool =
-//@     tx != nil && forall k string :: has(tx.store, k) ==> txFileOk(tx, k)
+//@ opaque pure func txInv(tx *Transaction) bool =
+//@     tx != nil && (tx.store != nil ==> mapref(tx.store).mowner == tx) && forall k string :: has(tx.store, k) ==> txFileOk(tx, k)
 
 // PushBack appends a version to the list of its key, creating the list on first use.
 //@ func (*Transaction).PushBack
@@ -247,11 +299,14 @@ import (
 //@   requires order:  has(tx.store, n.v.Key) && len(tx.store[n.v.Key].l.elems) > 0 ==>
 //@                       tx.store[n.v.Key].l.elems[len(tx.store[n.v.Key].l.elems)-1].v.Seq < n.v.Seq
 //@   modifies Node[model.File].next, Node[model.File].prev, Node[model.File].owner, Node[model.File].idx, List[model.File].elems,
-//@            file.arr, file.withoutSearch, file.gtx, file.gkey, mem[*Node[model.File]], backing.owner, Transaction.store, map[string]*file
+//@            file.arr, file.withoutSearch, file.gtx, file.gkey, mem[*Node[model.File]], backing.owner, Transaction.store, map[string]*file, mapref.mowner
+//@   ghost mapref(tx.store).mowner := tx
 //@   ghost tx.store[n.v.Key].gtx  := tx
 //@   ghost tx.store[n.v.Key].gkey := n.v.Key
 //@   ensures  inv:    txInv(tx)
 //@   ensures  has:    has(tx.store, n.v.Key)
+//@   ensures  othertx: forall t *Transaction :: t != nil && t != tx && old(txInv(t)) ==> txInv(t)
+//@   ensures  mowners: forall mp *mapref :: mp != mapref(tx.store) ==> mp.mowner == old(mp.mowner)
 //@   ensures  first:  !old(has(tx.store, n.v.Key)) ==> len(tx.store[n.v.Key].l.elems) == 1 && tx.store[n.v.Key].l.elems[0] == n
 //@   ensures  more:   old(has(tx.store, n.v.Key)) ==> tx.store[n.v.Key] == old(tx.store[n.v.Key]) && tx.store[n.v.Key].l.elems == old(tx.store[n.v.Key].l.elems) ++ [n]
 //@   ensures  keys:   forall k string :: k != n.v.Key ==> has(tx.store, k) == old(has(tx.store, k)) && (has(tx.store, k) ==> tx.store[k] == old(tx.store[k]))
@@ -265,8 +320,54 @@ import (
 //@   ensures  txs:    forall t *Transaction :: t != tx ==> t.store == old(t.store)
 //@   ensures  maps:   forall mp map[string]*file :: mp != tx.store && mp != nil ==> forall k string :: has(mp, k) == old(has(mp, k)) && mp[k] == old(mp[k])
 
+// Clear empties the store and returns its (empty) version lists to the pool.
+//@ func (*Transaction).Clear
+//@   requires inv:    tx != nil ==> txInv(tx)
+//@   requires empty:  tx != nil ==> forall k string :: has(tx.store, k) ==> len(tx.store[k].l.elems) == 0
+//@   modifies file.arr, file.withoutSearch, file.gtx, Node[model.File].next, Node[model.File].prev, map[string]*file, mem[*file]
+//@   ghost forall g *file :: g.gtx := ite(tx != nil && g.gtx == tx, nil, g.gtx)
+//@   ensures  cleared: tx != nil ==> forall k string :: !has(tx.store, k)
+//@   ensures  files:   forall g *file :: g.gtx != nil ==> g.gtx == old(g.gtx) && g.arr == old(g.arr) && g.withoutSearch == old(g.withoutSearch) &&
+//@                        g.l.root.next == old(g.l.root.next) && g.l.root.prev == old(g.l.root.prev)
+//@   ensures  nodes:   forall m *Node[model.File] :: toplevel(m) ==> m.next == old(m.next) && m.prev == old(m.prev)
+//@   ensures  maps:    forall mp map[string]*file :: (tx == nil || mp != tx.store) && mp != nil ==> forall k string :: has(mp, k) == old(has(mp, k)) && mp[k] == old(mp[k])
+//@ loop (*Transaction).Clear#1
+//@   invariant inv:    forall k string :: has(tx.store, k) ==> old(has(tx.store, k)) && tx.store[k] == old(tx.store[k])
+//@   invariant seen:   forall k string :: seen(k) ==> !has(tx.store, k)
+//@   invariant coll:   forall i int :: 0 <= i && i < len(fs) ==> fs[i] != nil && fs[i].gtx == tx && len(fs[i].l.elems) == 0
+//@   invariant maps:   forall mp map[string]*file :: mp != tx.store && mp != nil ==> forall k string :: has(mp, k) == old(has(mp, k)) && mp[k] == old(mp[k])
+
+// Registry of per-transaction stores.
+//@ func (*Transactions).Get
+//@   requires nn:  txs != nil
+//@   ensures  r:   result1 == has(txs.store, txId) && (result1 ==> result0 == txs.store[txId]) && (!result1 ==> result0 == nil)
+
+//@ func (*Transactions).Put
+//@   requires nn:     txs != nil && tx != nil
+//@   requires empty:  forall k string :: !has(tx.store, k)
+//@   modifies Transactions.store, Transaction.store, Transaction.gid, map[string]*Transaction, map[string]*file, mapref.mowner
+//@   ghost tx.gid := txId
+//@   ghost mapref(tx.store).mowner := tx
+//@   ensures  put:    has(txs.store, txId) && txs.store[txId] == tx && tx.gid == txId
+//@   ensures  keys:   forall i string :: i != txId ==> has(txs.store, i) == old(has(txs.store, i)) && (has(txs.store, i) ==> txs.store[i] == old(txs.store[i]))
+//@   ensures  store:  tx.store != nil && mapref(tx.store).mowner == tx && forall k string :: !has(tx.store, k)
+//@   ensures  mowners: forall mp *mapref :: mp != mapref(tx.store) ==> mp.mowner == old(mp.mowner)
+//@   ensures  txs:    forall t *Transaction :: t != tx ==> t.store == old(t.store) && t.gid == old(t.gid)
+//@   ensures  regs:   forall r *Transactions :: r != txs ==> r.store == old(r.store)
+//@   ensures  maps:   forall mp map[string]*file :: mp != nil && mp != tx.store && allocated(mp) ==> forall k string :: has(mp, k) == old(has(mp, k)) && mp[k] == old(mp[k])
+//@   ensures  rmaps:  forall mp map[string]*Transaction :: mp != nil && mp != txs.store && allocated(mp) ==> forall i string :: has(mp, i) == old(has(mp, i)) && mp[i] == old(mp[i])
+
+//@ func (*Transactions).Delete
+//@   requires nn:  txs != nil
+//@   modifies map[string]*Transaction
+//@   ensures  r:     result == ite(old(has(txs.store, txId)), old(txs.store[txId]), nil)
+//@   ensures  gone:  !has(txs.store, txId)
+//@   ensures  keys:  forall i string :: i != txId ==> has(txs.store, i) == old(has(txs.store, i)) && (has(txs.store, i) ==> txs.store[i] == old(txs.store[i]))
+//@   ensures  maps:  forall mp map[string]*Transaction :: mp != txs.store && mp != nil ==> forall i string :: has(mp, i) == old(has(mp, i)) && mp[i] == old(mp[i])
+
 //@ func (*file).PopBack
 //@   requires inv:    f != nil ==> fileInv(f) && sortedF(f)
+//@   ensures  otherfiles: forall g *file :: g != nil && g != f && old(fileOk(g)) ==> fileOk(g)
 //@   modifies Node[model.File].next, Node[model.File].prev, Node[model.File].owner, List[model.File].elems, file.arr
 //@   ensures  r:      result == ite(f == nil || len(old(f.l.elems)) == 0, nil, old(f.l.elems[len(f.l.elems)-1]))
 //@   ensures  inv:    f != nil ==> fileInv(f) && sortedF(f)
@@ -280,6 +381,7 @@ import (
 
 //@ func (*file).PopFront
 //@   requires inv:    f != nil ==> fileInv(f) && sortedF(f)
+//@   ensures  otherfiles: forall g *file :: g != nil && g != f && old(fileOk(g)) ==> fileOk(g)
 //@   modifies Node[model.File].next, Node[model.File].prev, Node[model.File].owner, List[model.File].elems, List[model.File].base,
 //@            file.arr, mem[*Node[model.File]]
 //@   ensures  r:      result == ite(f == nil || len(old(f.l.elems)) == 0, nil, old(f.l.elems[0]))
